@@ -43,7 +43,10 @@ class BoolEval:
             for d in kids(n):
                 if d["kind"] == "VarDecl":
                     ini = kids(d)
-                    self.locals[d["id"]] = self.expr(ini[0]) if ini else None
+                    t_ = (d.get("type") or "").replace("const ", "").strip()
+                    if t_ in ("bool", "_Bool", "int", "unsigned int"):
+                        self.locals[d["id"]] = self.expr(ini[0]) if ini else None
+                    # other locals (copies of pointers and values) are not truth values: the atoms name them
         elif k == "BinaryOperator" and n.get("opcode") == "=":
             l = strip(kids(n)[0])
             if l["kind"] == "DeclRefExpr" and l["ref"]["id"] in self.locals:
